@@ -5,7 +5,7 @@ from __future__ import annotations
 from ..interp import Hooks, explore
 from ..model import norm
 from ..values import ClsRef, Const, NodeV, Str, Sym, tagof
-from ..execmodel import R, sget, sset, sowner, sowners
+from ..execmodel import R, cset, sget, sset, sowner, sowners
 from .common import all_kinds, find_store_site, same_val, site_loc, sql_root, text_of, traces
 
 EXPLANATION = (
@@ -383,7 +383,7 @@ def rule_executemany_count(ctx):
 
     def run(I):
         duck, conn, cur = make_session()
-        conn.attrs[R().paramstyle] = Const("qmark")
+        cset(conn, R().paramstyle, Const("qmark"))
         sessions.append(cur)
         I.call(I.getattr(cur, "executemany"), [Sym("COMMAND", typ="str", truthy=True), Tup(sets)], {}, None)
         return I.getattr(cur, "rowcount")
